@@ -350,7 +350,8 @@ func specOf(c cfg, doc []byte) optSpec {
 	if c.hasInit {
 		ss = append(ss, setter{kind: 'i', o: c.init})
 	}
-	if c.base != "" {
+	hasBase := c.base != "" && strings.ContainsRune(kinds, 'b')
+	if hasBase {
 		ss = append(ss, setter{kind: 'b', n: 0})
 	}
 	if strings.ContainsRune(kinds, 'l') {
@@ -382,7 +383,7 @@ func specOf(c cfg, doc []byte) optSpec {
 		if explicitOff {
 			decoys = append(decoys, setter{kind: 'c', b: true}, setter{kind: 'i', o: off{977, 13, 31}})
 		}
-		if c.base != "" {
+		if hasBase {
 			decoys = append(decoys, setter{kind: 'b', n: 1})
 		}
 		if strings.ContainsRune(kinds, 'f') {
@@ -409,6 +410,23 @@ func specOf(c cfg, doc []byte) optSpec {
 		sp = append(sp, nil) // a trailing DecoderConfig{} sets nothing
 	}
 	return sp
+}
+
+// initThenOff: does the option list compile to capture=false with an initial offset set? (decidable trait
+// of the fixed finding C16X-O1)
+func initThenOff(sp optSpec) bool {
+	capture, hasCap, hasInit := false, false, false
+	for _, o := range sp {
+		for _, s := range o {
+			switch s.kind {
+			case 'c':
+				capture, hasCap = s.b, true
+			case 'i':
+				capture, hasCap, hasInit = true, true, true
+			}
+		}
+	}
+	return hasCap && !capture && hasInit
 }
 
 // ---------------------------------------------------------------- family `opts` (T3 against Model/DecoderOpts.lean)
@@ -637,20 +655,6 @@ func (c optCase) modelKind() string {
 
 func (c optCase) line() string { return "offx.opts " + c.modelKind() + " " + c.sp.wire() }
 
-// optsHtmlDefaultsListed: is the unrepaired htmldefaults forwarding order a listed known finding?
-func optsHtmlDefaultsListed() (vh.Finding, bool) {
-	fs, err := vh.LoadFindings(*findings)
-	if err != nil {
-		return vh.Finding{}, false
-	}
-	for _, f := range fs {
-		if f.Property == "C16" && f.Status == "known" && f.Predicate == "opts|html|capture-off-ignored-after-initial" {
-			return f, true
-		}
-	}
-	return vh.Finding{}, false
-}
-
 func genOptCases(g *vh.Rng) (cs []optCase) {
 	for _, format := range optFormats {
 		alpha := optAlphabet(format)
@@ -742,17 +746,6 @@ func runOptCases(rep *vh.Report, cs []optCase) (compared, failures int, err erro
 			rep.Count("opts-effective:capture-on-zero")
 		} else {
 			rep.Count("opts-effective:capture-on-shifted")
-		}
-		if got != model && c.format == "html" {
-			// unrepaired htmldefaults: Decoder.init re-issues capture before initial (model flag legacy)
-			r2, err2 := vh.Driver{Path: *driver}.Run([]string{"offx.opts htmldefaults-legacy " + c.sp.wire()})
-			if f, ok := optsHtmlDefaultsListed(); ok && err2 == nil && r2[0] == got {
-				if rep.Hist["known:"+f.Key] < 3 {
-					rep.Add(vh.Case{Kind: "known", Key: f.Key, Op: "offx.opts html " + c.sp.wire(), Go: got, Model: model, Detail: f.What})
-				}
-				rep.Count("known:" + f.Key)
-				continue
-			}
 		}
 		if got != model {
 			failures++
